@@ -586,11 +586,12 @@ func (g *G) genString(d int) *Expr {
 			g.genString(d + 1)}}
 	case 2:
 		g.class("builtin-subst-regex")
-		pat := &Pattern{ID: g.nextPat, Toks: []PatTok{{Kind: "lit", Lit: pick(g, "substre", []string{`o+`, `[a-c]`, `\d`, `^f`})}}}
+		pat := &Pattern{ID: g.nextPat, Toks: []PatTok{{Kind: "lit", Lit: pick(g, "substre", []string{`o+`, `[a-c]`, `\d`, `^f`, `(o)(.)`, `(?P<n>\d)`})}}}
 		g.nextPat++
 		return &Expr{Op: "call", Ty: TString, Name: "subst", Args: []*Expr{
 			{Op: "patlit", PatV: pat},
-			{Op: "lit", Ty: TString, S: pick(g, "new2", []string{"", "_", "zz"})},
+			// the replacement is literal text, whatever it looks like
+			{Op: "lit", Ty: TString, S: pick(g, "new2", []string{"", "_", "zz", "$1", "${1}x", "$n", "$$", "a$2b"})},
 			g.genString(d + 1)}}
 	case 3:
 		g.class("builtin-string")
